@@ -95,7 +95,9 @@ PROPS["C08"] = dict(
     mismatch_is_input=True,
     model="Reify.v (walkstar/reifys = gen/MicroGen.v, translated from micro/walk.go, reify.go on every run); GCore.v (grewrite: transcription of gomini rewrite over Reflect.v)",
     gens=[gens.gen_micro, gens.gen_gomini],
-    harness=[dict(name="main", n_quick=1500, n_thorough=2500, shards_quick=1, shards_thorough=8)],
+    harness=[dict(name="main", n_quick=1500, n_thorough=2500, shards_quick=1, shards_thorough=8),
+             # reification from several goroutines at once (and the gomini rewrites, which run on search goroutines) under the race detector
+             dict(name="race", race=True, n_quick=60, n_thorough=300, shards_quick=1, shards_thorough=2, coq=False, timeout=1500)],
     trusted=_PROG_TRUSTED + _GOMINI_TRUSTED,
     assumptions=["reified names are the ordinary symbols _k (a user symbol _k is indistinguishable from a reified variable)"],
     explanation="model of reifyS/ReifyIntVarFromState/MKReify/Run with first-occurrence renaming theorems; gomini.Run results checked for dynamic type, resolvedness against the reference unifier, caller terms unmodified",
